@@ -813,6 +813,10 @@ func (d *Decoder) DecodePackedFloat32() ([]float32, error) { //nolint: dupl // F
 	}
 	d.offset += n
 	packedDataStart := d.offset
+	// don't trust the declared length before verifying it against the available data
+	if l > uint64(len(d.p)-d.offset) {
+		return nil, io.ErrUnexpectedEOF
+	}
 	res = make([]float32, 0, l/4)
 	for nRead < l {
 		if d.offset+4 > len(d.p) {
